@@ -370,17 +370,27 @@ package cache
 //@   ensures[C14] @others s.stats.Gets == old(s.stats.Gets) && s.stats.Misses == old(s.stats.Misses)
 //@   ensures[C14] @unlocked lockstate(s.mu) == 0
 
-// Free: holds no lock of its own, asks for at least one eviction when it asks
-// at all, and returns.
+// Free: the abstract state of the cache it is given is a pair of ghost
+// fields (clen, ccap) that the assumed contracts of Len, Cap and Drop read and
+// update the way the three implementations above are proved to behave. Free
+// asks for exactly the evictions that are needed, reports whether the slots
+// are available afterwards, holds no lock of its own and returns.
+//@ ghostfield clen, ccap
 //@ trusted func ext:github.com/biogo/hts/bgzf/cache.Cache.Len
-//@   ensures 0 <= result && result <= 1099511627776
+//@   ensures result == clen(self) && 0 <= result && result <= 1099511627776
 //@ trusted func ext:github.com/biogo/hts/bgzf/cache.Cache.Cap
-//@   ensures 0 - 1099511627776 <= result && result <= 1099511627776
+//@   ensures result == ccap(self) && 0 - 1099511627776 <= result && result <= 1099511627776
 //@ trusted func ext:github.com/biogo/hts/bgzf/cache.Cache.Drop
 //@   requires n >= 1
+//@   modifies clen(self)
+//@   ensures clen(self) == max(old(clen(self)) - n, 0)
 
 //@ func Free
 //@   mode int
 //@   props C14
 //@   requires c != nil && 0 - 4611686018427387904 <= n && n <= 4611686018427387904
+//@   modifies clen(c)
 //@   terminates
+//@   ensures[C14] @enough (n <= old(ccap(c) - clen(c))) ==> (result && clen(c) == old(clen(c)))
+//@   ensures[C14] @needed (n > old(ccap(c) - clen(c))) ==> clen(c) == max(old(clen(c)) - (n - old(ccap(c) - clen(c))), 0)
+//@   ensures[C14] @result result == (ccap(c) - clen(c) >= n)
